@@ -3,3 +3,4 @@ From PV Require Import Base.U64 E3.E3_Run C07.C07_Model C07.C07_Arith C07.C07_Li
 From PV Require Import C07.C07_SPSC_Model C07.C07_MPMC_Model C07.C07_Batch_Model.
 From PV Require Export C07.C07_SPSC_Proofs.
 From PV Require Export C07.C07_MPMC_Proofs.
+From PV Require Export C07.C07_Chan_Proofs.
